@@ -14,6 +14,9 @@
 (*      pre     "dead" iff before the call the worker was dead or never run (OS ground    *)
 (*              truth: child gone or zombie, no worker thread left), else "alive"         *)
 (*      os_ret  "dead" | "alive": the child at the moment the call returned (from /proc)  *)
+(*      thr_ret "gone" | "alive": the worker's own thread in the caller's process (frontend  *)
+(*              thread of a remote worker, the thread of a thread worker) when the call      *)
+(*              returned                                                                     *)
 (*      os_grace same, after the signal-delivery grace period                             *)
 (*      after_true "T" iff an earlier wait/terminate of this history has returned True     *)
 (*      selfsig "T" iff the call sent SIGTERM to the calling process itself               *)
@@ -27,9 +30,9 @@ Calls(r) == {r.obs.calls[k] : k \in 1..Len(r.obs.calls)}
 
 \* per call c of record r:
 \* wait/terminate come back within a small multiple of their timeout (and do not kill the caller)
-ReturnsC(r, c)  == c.op \in WTOps => (c.durc = "ok" /\ c.selfsig = "F")
-\* a True answer means the child is dead at that moment, according to the OS
-TruthfulC(r, c) == (c.op \in WTOps /\ c.ret = "T") => c.os_ret = "dead"
+ReturnsC(r, c)  == c.op \in WTOps => (c.durc = "ok" /\ c.selfsig = "F" /\ c.ret \in {"T", "F"})     \* ... and answers, it does not raise
+\* a True answer means the worker is dead at that moment: the child according to the OS, and no thread of the worker left
+TruthfulC(r, c) == (c.op \in WTOps /\ c.ret = "T") => (c.os_ret = "dead" /\ c.thr_ret = "gone")
 \* dead / never-run worker: True at once, in any order, any number of times
 DeadFastC(r, c) == (c.op \in WTOps /\ c.pre = "dead") => (c.ret = "T" /\ c.fast = "T")
 \* terminate(force=True) on a process/remote worker that does not block SIGTERM leaves the child dead
